@@ -384,8 +384,12 @@ def write_evidence(ctx, meta):
         'coverage': cov, 'assumptions': meta.get('assumptions', []), 'wall_s': round(wall, 2),
         'violations': len(ctx.violations),
     }
-    os.makedirs(os.path.join(VERIF, 'evidence'), exist_ok=True)
-    p = os.path.join(VERIF, 'evidence', '%s.json' % ctx.prop_id)
+    # evidence/ always describes a run against /repo itself; development runs against another
+    # tree (DW_REPO, tools/try_seed.sh) write theirs elsewhere
+    evdir = os.environ.get('VERIF_EVIDENCE_DIR') or (os.path.join(VERIF, 'evidence') if REPO == '/repo'
+                                                     else os.path.join(VERIF, '.work', 'evidence_other_tree'))
+    os.makedirs(evdir, exist_ok=True)
+    p = os.path.join(evdir, '%s.json' % ctx.prop_id)
     with open(p + '.tmp', 'w') as f:
         json.dump(ev, f, indent=1, default=str)
     os.replace(p + '.tmp', p)
